@@ -959,7 +959,30 @@ def maximal_programs():
     L.append(Line(["{"], "func_open", 0, 1))
     L.append(Line(["\treturn (0);"], "stmt", 1, 1, stmt="return"))
     L.append(Line(["}"], "func_close", 0, 1))
-    out.append(Prog(name, L, dict(nfuncs=2, maximal="control-flow corner shapes")))
+    # a void function whose LAST statement is the body of an else branch (and one ending in an else-if branch)
+    pp = Slot("id", "ptr")
+    L.append(Line([""], "blank"))
+    L.append(Line(["void\t", Slot("fname", "last"), "(int *", pp, ")"], "func_sig", 0, 2))
+    L.append(Line(["{"], "func_open", 0, 2))
+    L.append(Line(["\tif (*", pp, ")"], "ctrl", 1, 2, kw="if"))
+    L.append(Line(["\t\t*", pp, " = 0;"], "stmt", 2, 2, stmt="assign"))
+    L.append(Line(["\telse"], "ctrl", 1, 2, kw="else"))
+    L.append(Line(["\t\t*", pp, " = 1;"], "stmt", 2, 2, stmt="assign"))
+    L.append(Line(["}"], "func_close", 0, 2))
+    L.append(Line([""], "blank"))
+    L.append(Line(["void\t", Slot("fname", "lastb"), "(int *", pp, ")"], "func_sig", 0, 3))
+    L.append(Line(["{"], "func_open", 0, 3))
+    L.append(Line(["\tif (*", pp, " > 2)"], "ctrl", 1, 3, kw="if"))
+    L.append(Line(["\t\t*", pp, " = 0;"], "stmt", 2, 3, stmt="assign"))
+    L.append(Line(["\telse if (*", pp, ")"], "ctrl", 1, 3, kw="else if"))
+    L.append(Line(["\t\treturn ;"], "stmt", 2, 3, stmt="return"))
+    L.append(Line(["}"], "func_close", 0, 3))
+    L.append(Line([""], "blank"))
+    L.append(Line(["int\t", Slot("fname", "tail"), "(void)"], "func_sig", 0, 4))
+    L.append(Line(["{"], "func_open", 0, 4))
+    L.append(Line(["\treturn (1);"], "stmt", 1, 4, stmt="return"))
+    L.append(Line(["}"], "func_close", 0, 4))
+    out.append(Prog(name, L, dict(nfuncs=5, maximal="control-flow corner shapes")))
     # 5. declarations that LOOK like functions but are not (function-pointer global with initialiser, array globals with
     #    brace initialisers, prototypes, function-pointer parameter and local) next to exactly FOUR functions: one below
     #    the function limit, so that any miscount shows when one more function is appended (C19) or present (C01)
